@@ -1379,7 +1379,7 @@ def main(tier, seed, replay=None):
     w_big = int(os.environ.get('VERIF_TLC_WORKERS', '0')) or max(2, ncpu // 4)
     scratch = tlc.scratch_dir('c02cfg-')
 
-    def search(name, static='MC_Lifecycle_asis.cfg', depth=None, timeout=900, **over):
+    def search(name, static='MC_Lifecycle_asis.cfg', depth=None, timeout=900, nworkers=1, **over):
         """as-is counterexample search (one worker => deterministic).  Capped by a breadth-first depth bound
         (deterministic) and by a wall-clock timeout; nothing found within the cap = no counterexample."""
         p = _cfg_with(static, scratch, name + '.cfg', **over)
@@ -1387,7 +1387,8 @@ def main(tier, seed, replay=None):
             with open(p, 'a') as f:
                 f.write('CONSTRAINT Depth%d\n' % depth)
         try:
-            return tlc.run('MC_Lifecycle.tla', p, timeout=timeout, workers=1)
+            # one worker = deterministic counterexample; the searches that are expected to find nothing may use more
+            return tlc.run('MC_Lifecycle.tla', p, timeout=timeout, workers=nworkers)
         except tlc.TLCError as e:
             if 'timed out' in str(e):
                 return None
@@ -1411,10 +1412,10 @@ def main(tier, seed, replay=None):
                      [('FALSE', 'FALSE', 'NoThreadDies+ReconnectOK', 2, 1, 50)] + \
                      [(s_, 'TRUE', 'HistoryOK', 2, 1, 30) for s_ in ('FALSE', 'TRUE')]
         else:
-            combos = [(s_, c_, inv, 2, 1, 60 if c_ == 'FALSE' else 36) for s_ in ('FALSE', 'TRUE') for c_ in ('FALSE', 'TRUE')
+            combos = [(s_, c_, inv, 2, 1, 60 if c_ == 'FALSE' else 30) for s_ in ('FALSE', 'TRUE') for c_ in ('FALSE', 'TRUE')
                       for inv in ('HistoryOK', 'QuietOK', 'NoThreadDies+ReconnectOK')] + \
-                     [('FALSE', 'FALSE', inv, 3, 2, 50) for inv in ('HistoryOK', 'QuietOK')]
-        f_asis = [small.submit(search, 'asis%d' % i, depth=dp, UseSync=s_, Closer=c_, NAtt=natt, MaxFaults=mf,
+                     [('FALSE', 'FALSE', inv, 3, 2, 36) for inv in ('HistoryOK', 'QuietOK')]
+        f_asis = [small.submit(search, 'asis%d' % i, depth=dp, nworkers=3 if '+' in inv else 1, UseSync=s_, Closer=c_, NAtt=natt, MaxFaults=mf,
                                Defects=_tla_set(defects), INVARIANTS=inv.split('+'))
                   for i, (s_, c_, inv, natt, mf, dp) in enumerate(combos)]
         #    the seven repairs of /repo, each reverted: the as-is spec with the pre-fix switch(es) back on gives the
@@ -1576,7 +1577,7 @@ def main(tier, seed, replay=None):
 
 
 # --------------------------------------------------------------------------- known-findings enumeration (offline tool)
-def enumerate_known(natt=3, closer='TRUE', sync='FALSE', workers=16, timeout=3000, maxfaults=None):
+def enumerate_known(natt=3, closer='TRUE', sync='FALSE', workers=16, timeout=3000, maxfaults=None, depth=None):
     """Which clauses can the AS-IS design spec (switches measured on the tree) violate, and in which variant
     (T = no open_link of attempt >= 2 had begun, R = it had)?  One exhaustive TLC run of MC_LifecycleEnum (small
     constants) that prints every key it meets.  `python -m harness.props.C02` prints the lists for reports/C02.md."""
@@ -1594,7 +1595,7 @@ def enumerate_known(natt=3, closer='TRUE', sync='FALSE', workers=16, timeout=300
         txt = re.sub(r'(?m)^  FaultBy .*$', '  FaultBy = {"sender", "driver"}', txt)
         lines = [ln for ln in txt.splitlines() if not ln.startswith('INVARIANT')]
         i = lines.index('CHECK_DEADLOCK FALSE')
-        lines[i:i] = ['INVARIANT EnumInv', 'INVARIANT EnumQuiet']
+        lines[i:i] = ['INVARIANT EnumInv', 'INVARIANT EnumQuiet'] + (['CONSTRAINT Depth%d' % depth] if depth else [])
         p = os.path.join(scratch, 'enum.cfg')
         with open(p, 'w') as f:
             f.write('\n'.join(lines) + '\n')
